@@ -273,7 +273,21 @@ def unit_display(u, res):
     res.models |= ex.models_used
     res.paths += len(outs)
     res.nontrivial_paths += len(outs) if cons or what[0] in ('token',) else 0
-    record_panics(res, pr, name, outs, lambda m: name, lambda o: 'panic in Display')
+    def native_spec(model):
+        # how to rebuild the formatted object natively (runner entry `display`)
+        if what[0] == 'value':
+            return dict(display=dict(what='value', args=[render_value(C.meta, target, model)]))
+        if what[0] == 'error' and isinstance(target, Adt):
+            args = []
+            for fld in target.fields:
+                if isinstance(fld, SStr):
+                    args.append(('String', render_str(fld, model)))
+                elif isinstance(fld, Adt) and fld.ty == 'Value':
+                    args.append(render_value(C.meta, fld, model))
+            return dict(display=dict(what='error:%s' % C.meta.enums['EvalexprError'][target.variant][0], args=args))
+        return {}
+    record_panics(res, pr, name, outs, lambda m: name + ((' ' + repr(native_spec(m).get('display', {}).get('args'))[:200]) if what[0] in ('value', 'error') else ''),
+                  lambda o: 'panic in Display', extra=native_spec)
     if len(res.samples) < 1:
         o = outs[0] if outs else None
         res.samples.append(dict(unit=name, rendered=repr(o.value) if o is not None and o.kind == 'return' else None))
@@ -334,6 +348,19 @@ def make_error(C, name, cons, long=False):
 def replay_ce(ce):
     if 'builtin' in ce:
         return c10.replay_ce(ce, c01=True)
+    if 'display' in ce:
+        d = ce['display']
+        details = []
+        bad = False
+        for prof in ('dev', 'release'):
+            ops = ['what %s' % d['what']] + ['arg %s' % replay.enc_value(tuple(a) if isinstance(a, list) else a) for a in d['args']]
+            out = replay.run_cases(replay.case_text('d', 'display', '', ops=ops), prof)
+            if 'unsupported' in out['d']['lines']:
+                return 'not_reproduced', 'runner cannot build %s natively' % d['what']
+            p = out['d'].get('panic')
+            details.append('%s: %s' % (prof, ('panic: ' + p) if p else 'no panic'))
+            bad = bad or bool(p)
+        return ('reproduced' if bad else 'not_reproduced'), details
     if 'source' in ce:
         details = []
         bad = False
